@@ -674,6 +674,8 @@ def fmt_size(fmt, fields):
 
 CMD, HLC, LOC, PLT, LPS = FW.CMD, FW.HLC, FW.LOC, FW.PLT, FW.LPS
 VARIANTS = [
+    M('R4', ST, "        elif isinstance(data, list) or isinstance(data, tuple):\n            self._data = bytearray(data)", "        elif isinstance(data, list) or isinstance(data, tuple):\n            self._data = bytearray(b & 0xFF for b in data)", 'payload elements masked instead of range-checked'),
+    M('R4', ST, "        self.size = 0\n        self._data = bytearray()", "        self.size = 0\n        self._data = self._NO_DATA", 'payload buffer shared between packets'),
     M('R1', CMD, "pk.data = struct.pack('<fffH', roll, -pitch, yawrate, thrust)", "pk.data = struct.pack('<fffH', roll, pitch, yawrate, thrust)", 'pitch sign lost'),
     M('R1', CMD, "pk.data = struct.pack('<Bffff', TYPE_HOVER,\n                                  vx, vy, yawrate, zdistance)", "pk.data = struct.pack('<Bffff', TYPE_HOVER,\n                                  vy, vx, yawrate, zdistance)", 'vx/vy swapped'),
     M('R1', CMD, "TYPE_ZDISTANCE = 9", "TYPE_ZDISTANCE = 10", 'type code'),
